@@ -101,6 +101,15 @@ pub fn deliveries(a: &Analysis) -> Vec<Delivery> {
                 direct = Some(*inst);
                 (DKind::SystemEvent, Key::Pay(*pay), vec![])
             }
+            RAct::SendSeEnt { pay, .. } => {
+                // addressed to an entity that is not a system: nobody may run, the payload must be released
+                target_dead = true;
+                (DKind::SystemEvent, Key::Pay(*pay), vec![])
+            }
+            RAct::RunEnt { .. } => {
+                target_dead = true;
+                (DKind::Run, Key::Empty, vec![])
+            }
             RAct::Run { inst } | RAct::WrRun { inst, .. } => {
                 direct = Some(*inst);
                 (DKind::Run, Key::Empty, vec![])
